@@ -24,7 +24,8 @@ LEAN_MODULES = ["LunaVerif.Props.C09Spec", "LunaVerif.Lemmas.C09Stage", "LunaVer
                 "LunaVerif.Lemmas.C09Rom", "LunaVerif.Lemmas.C09RomLookup", "LunaVerif.Lemmas.C09RomCorrect",
                 "LunaVerif.Props.C09", "LunaVerif.Lemmas.C09Mux", "LunaVerif.Props.C09Mux",
                 "LunaVerif.Lemmas.C09Seq", "LunaVerif.Lemmas.C09BlockIdle", "LunaVerif.Lemmas.C09DistIdle",
-                "LunaVerif.Lemmas.C09MuxIdle", "LunaVerif.Props.C09Seq", "LunaVerif.Props.C09DataStage"]
+                "LunaVerif.Lemmas.C09MuxIdle", "LunaVerif.Props.C09Seq", "LunaVerif.Props.C09DataStage",
+                "LunaVerif.Lemmas.C09EndToEndEv", "LunaVerif.Props.C09EndToEnd"]
 DRIVER = "Driver/C09.lean"
 REQUIRED_THEOREMS = ["datastage_exact", "dataStage_concat", "dataStage_packet_le", "rom_lookup_correct",
                      "block_packet_exact", "dist_packet_exact", "stall_without_data_when_absent_block",
@@ -32,7 +33,8 @@ REQUIRED_THEOREMS = ["datastage_exact", "dataStage_concat", "dataStage_packet_le
                      "mux_stall_iff_absent", "block_returns_idle", "dist_returns_quiescent",
                      "dist_runtime_returns_quiescent", "mux_returns_idle", "block_requests_exact",
                      "dist_requests_exact", "mux_requests_exact", "block_datastage_exact",
-                     "dist_datastage_exact", "mux_datastage_exact"]
+                     "dist_datastage_exact", "mux_datastage_exact",
+                     "get_descriptor_end_to_end", "get_descriptor_stall_iff_absent"]
 RULE = ("cases = (handler class in {block, distributed, mux(block+distributed runtime)}, max packet size in "
         "{8,16,32,64}, random descriptor collection of 1..10 descriptors with lengths 1..300 weighted to "
         "packet-size multiples, types 0..15 and a few vendor types, sparse/consecutive indexes, string descriptors, "
